@@ -19,8 +19,8 @@ ASSUMPTIONS = [
     'awaitable completions and resume calls are delivered between two event-loop callbacks',
 ]
 BUDGET = {
-    'quick': {'enum': ['p3'], 'hyp': 2000, 'shards': 8},
-    'thorough': {'enum': ['p3', 'p4'], 'hyp': 100000, 'shards': 16},
+    'quick': {'enum': ['p3', 'w2'], 'hyp': 2000, 'shards': 8},
+    'thorough': {'enum': ['p3', 'p4', 'w2', 'w3'], 'hyp': 100000, 'shards': 16},
 }
 ALPHABET = [['resume', 'v1'], ['resume', 'v2'], ['pause', 'pm'], ['play']]
 
@@ -44,7 +44,7 @@ def enumerate_cases(tier, scope):
 
 @st.composite
 def _cases(draw, tier):
-    if False and draw(st.integers(0, 3)) == 0:
+    if draw(st.integers(0, 3)) == 0:
         from . import wc_await
 
         return draw(wc_await.strategy(tier))
@@ -99,6 +99,13 @@ def execute(case):
     return {'violations': viol, 'nontrivial': nontrivial, 'classes': classes, 'history': a['history']}
 
 
-from .c04 import shrink_candidates  # noqa: E402,F401
+from .c04 import shrink_candidates as _shrink_prog  # noqa: E402
+
+
+def shrink_candidates(case):
+    if case.get('kind') == 'wc_await':
+        return iter(())
+    return _shrink_prog(case)
+
 
 SIGNATURES = {}
